@@ -180,6 +180,10 @@ def correspond(ctx, corr, model_ok):
                                  'impl_results': res[:12]})
         lines.append((_coq_case(case, res, cur, act), case))
     _dups(corr, model_ok)
+    ne = ctx.scale(60, 1500)
+    corr.oracle_failures.extend(endpoint_ids_oracle(ctx.rng, ne))
+    corr.count('endpoint: ids on the request frames of all four request APIs, small id spaces with wrap', ne)
+    corr.evaluations += ne
     if not model_ok:
         return
     shards = ['Definition cases : list case13 := [\n' + ';\n'.join(x[0] for x in ch) + '\n].'
@@ -260,6 +264,96 @@ def _dups(corr, model_ok):
         E.trace_corr(corr, runs, 'keep_all', True, 'duplicate stream id: endpoint vs model/Endpoint.v')
 
 
+# ---- the ids the ENDPOINT puts on its request frames (every request API, not only the allocator it is meant to use) ----
+def run_endpoint_ids(role, m, script):
+    """script: list of 'rr' | 'rs' | 'rc' | 'fnf' | ('end', k): requests of all kinds on a real endpoint whose id space is
+    m bits; streams stay open unless ended (the peer answers stream number k).  Returns [(kind, id on the wire, ids active
+    at that moment)] and the ids for which the call was refused."""
+    import asyncio
+    from datetime import timedelta
+    from harness import sim, frames as FR
+    from rsocket.rsocket_client import RSocketClient
+    from rsocket.rsocket_server import RSocketServer
+    from rsocket.helpers import single_transport_provider
+    from rsocket.payload import Payload
+    from reactivestreams.subscriber import DefaultSubscriber
+    loop = sim.new_loop()
+    sim.patch_clock(loop)
+    T = sim.make_transport_class()
+    t = T(lenreq=True)
+    box = {}
+    try:
+        def mk():
+            if role == 'client':
+                box['e'] = RSocketClient(single_transport_provider(t), keep_alive_period=timedelta(seconds=1000),
+                                         max_lifetime_period=timedelta(seconds=5000))
+                asyncio.create_task(box['e'].connect())
+            else:
+                box['e'] = RSocketServer(t)
+        loop.run(mk)
+        loop.settle()
+        ep = box['e']
+        ep._stream_control._maximum_stream_id = (1 << m) - 1
+        out, refused, opened = [], 0, []
+        for step in script:
+            seen = len(t.sent)
+            active = sorted(ep._stream_control._streams)
+            if isinstance(step, tuple):
+                if step[1] < len(opened):
+                    kind, sid = opened[step[1]]
+                    if sid in ep._stream_control._streams:
+                        t.inject_frame(FR.build({'t': 'Payload', 'sid': sid, 'ign': False, 'follows': False, 'complete': True,
+                                                 'next': True, 'md': b'', 'd': b'x'}).serialize())
+                        loop.settle()
+                continue
+            try:
+                if step == 'rr':
+                    loop.run(lambda: ep.request_response(Payload(b'x')))
+                elif step == 'rs':
+                    loop.run(lambda: ep.request_stream(Payload(b'x')).subscribe(DefaultSubscriber()))
+                elif step == 'rc':
+                    loop.run(lambda: ep.request_channel(Payload(b'x')).subscribe(DefaultSubscriber()))
+                else:
+                    loop.run(lambda: ep.fire_and_forget(Payload(b'x')))
+            except Exception:
+                refused += 1
+                continue
+            loop.settle()
+            new = [sim.parse_sent(b) for b in t.sent[seen:]]
+            req = [f for f in new if f['t'].startswith('Request') and f['t'] != 'RequestN']
+            if req:
+                out.append((step, req[0]['sid'], active))
+                if step != 'fnf':
+                    opened.append((step, req[0]['sid']))
+        return out, refused
+    finally:
+        loop.finish()
+
+
+def endpoint_ids_oracle(rng, n):
+    fails = []
+    for _ in range(n):
+        role = rng.choice(['client', 'server'])
+        m = rng.choice([3, 4, 4, 5])
+        script = []
+        for _ in range(rng.randint(6, 40)):
+            r = rng.random()
+            script.append(('end', rng.randrange(0, 12)) if r < 0.25 else rng.choice(['rr', 'rs', 'rc', 'fnf', 'fnf', 'fnf']))
+        res, refused = run_endpoint_ids(role, m, script)
+        par = 1 if role == 'client' else 0
+        why = None
+        for kind, sid, active in res:
+            if sid in active:
+                why = '%s went out on id %d while that id was active (%s)' % (kind, sid, active)
+            elif sid == 0 or sid % 2 != par or sid > (1 << m) - 1:
+                why = '%s went out on id %d (role %s, %d-bit id space)' % (kind, sid, role, m)
+            if why:
+                break
+        if why:
+            fails.append({'what': 'endpoint request ids: ' + why, 'endpoint_ids_case': [role, m, script]})
+    return fails
+
+
 def search(ctx, budget_s):
     import time
     t0 = time.time()
@@ -275,10 +369,13 @@ def search(ctx, budget_s):
         o = _oracle(case, res, before)
         if o:
             out.append({'what': o, 'input': case})
+        out.extend(endpoint_ids_oracle(rng, 30))
     return out
 
 
 def shrink(fc):
+    if 'input' not in fc:
+        return fc
     case = dict(fc['input'])
     ops = list(case['ops'])
 
@@ -298,6 +395,12 @@ def shrink(fc):
 
 
 def replay(obj):
+    if 'endpoint_ids_case' in obj['case']:
+        role, m, script = obj['case']['endpoint_ids_case']
+        script = [tuple(x) if isinstance(x, list) else x for x in script]
+        res, _ = run_endpoint_ids(role, m, script)
+        par = 1 if role == 'client' else 0
+        return any(sid in active or sid == 0 or sid % 2 != par or sid > (1 << m) - 1 for _, sid, active in res)
     if 'dup' in obj['case']:
         first, second, role, lenreq = obj['case']['dup']
         _, res = dup_scenario(first, second, role, lenreq)
